@@ -10,6 +10,7 @@ import (
 	"errors"
 	"fmt"
 	"sort"
+	"sync/atomic"
 	"time"
 
 	"github.com/orbs-network/lean-helix-go/services/interfaces"
@@ -28,7 +29,19 @@ type Block struct {
 }
 
 func (b *Block) Height() primitives.BlockHeight             { return b.H }
-func (b *Block) ReferenceTime() primitives.TimestampSeconds { return primitives.TimestampSeconds(b.H) }
+func (b *Block) ReferenceTime() primitives.TimestampSeconds { return RefTimeOf(uint64(b.H)) }
+
+// RefTimeOf: reference time of the block at height h (distinct from h itself so the two cannot be confused).
+func RefTimeOf(h uint64) primitives.TimestampSeconds { return primitives.TimestampSeconds(1000 + 7*h) }
+
+// PrevRefTime: the reference time a correct caller passes when it asks for the committee of height h
+// (that of the previous block; 0 for genesis).
+func PrevRefTime(h primitives.BlockHeight) primitives.TimestampSeconds {
+	if h <= 1 {
+		return 0
+	}
+	return RefTimeOf(uint64(h) - 1)
+}
 func (b *Block) String() string                             { return fmt.Sprintf("%d:%s", b.H, b.Tag) }
 
 func NewBlock(h uint64, tag string) *Block { return &Block{primitives.BlockHeight(h), tag} }
@@ -179,16 +192,33 @@ type Membership struct {
 	// ForHeight, if set, overrides Committee per height (rotation).
 	ForHeight func(h primitives.BlockHeight) Committee
 	Calls     int
+	// BadRefTime counts committee requests whose prevBlockReferenceTime is not that of block h-1; such a request
+	// is answered with a committee of strangers (a consumer whose committees rotate with the reference time).
+	BadRefTime int32
 	// Gate, if set, is called with the context of every RequestOrderedCommittee call (E2 blocking SPI).
 	Gate func(ctx context.Context, h primitives.BlockHeight) error
 }
 
 func (m *Membership) MyMemberId() primitives.MemberId { return m.Me }
-func (m *Membership) at(h primitives.BlockHeight) Committee {
+func (m *Membership) at(h primitives.BlockHeight, t primitives.TimestampSeconds) Committee {
+	c := m.Committee
 	if m.ForHeight != nil {
-		return m.ForHeight(h)
+		c = m.ForHeight(h)
 	}
-	return m.Committee
+	if t != PrevRefTime(h) {
+		atomic.AddInt32(&m.BadRefTime, 1)
+		return Strangers(c)
+	}
+	return c
+}
+
+// Strangers: the committee (same weights, other identities) that a request with a wrong reference time is answered with.
+func Strangers(c Committee) Committee {
+	o := make(Committee, len(c))
+	for i, x := range c {
+		o[i] = Member{ID: []byte(fmt.Sprintf("stranger%d", i)), Weight: x.Weight}
+	}
+	return o
 }
 func (m *Membership) RequestOrderedCommittee(ctx context.Context, h primitives.BlockHeight, seed uint64, t primitives.TimestampSeconds) ([]interfaces.CommitteeMember, error) {
 	m.Calls++
@@ -197,10 +227,10 @@ func (m *Membership) RequestOrderedCommittee(ctx context.Context, h primitives.B
 			return nil, err
 		}
 	}
-	return m.at(h).Members(), nil
+	return m.at(h, t).Members(), nil
 }
 func (m *Membership) RequestCommitteeForBlockProof(ctx context.Context, h primitives.BlockHeight, t primitives.TimestampSeconds) ([]interfaces.CommitteeMember, error) {
-	r := m.at(h).Members()
+	r := m.at(h, t).Members()
 	for i, j := 0, len(r)-1; i < j; i, j = i+1, j-1 { // same set, different order
 		r[i], r[j] = r[j], r[i]
 	}
